@@ -806,6 +806,67 @@ func ruleCmpChain(c *Ctx) {
 				}
 				n++
 				c.sawFn(fnName(f))
+				// inside a loop over the pieces: when this piece is a tie (c == 0) the walk goes round to the next
+				// piece — the tie edge does not leave the loop
+				if op == token.NEQ && k == 0 {
+					{
+						// the branch that guards this return
+						for _, pb := range ret.Block().Preds {
+							iff, ok := pb.Instrs[len(pb.Instrs)-1].(*ssa.If)
+							if !ok || len(pb.Succs) != 2 {
+								continue
+							}
+							var hdr *ssa.BasicBlock
+							for _, b := range f.Blocks {
+								isH := false
+								for _, p := range b.Preds {
+									if b.Dominates(p) {
+										isH = true
+									}
+								}
+								if isH && b.Dominates(pb) && (hdr == nil || hdr.Dominates(b)) {
+									hdr = b
+								}
+							}
+							if hdr == nil {
+								continue
+							}
+							// where the loop goes when its own condition ends it
+							exits := map[*ssa.BasicBlock]bool{}
+							for _, sc := range hdr.Succs {
+								if !loopBlocks(hdr)[sc] {
+									exits[sc] = true
+								}
+							}
+							if len(exits) == 0 {
+								continue
+							}
+							tie := pb.Succs[1]
+							if pb.Succs[1] == ret.Block() {
+								tie = pb.Succs[0]
+							}
+							_ = iff
+							leaves := false
+							seenB := map[*ssa.BasicBlock]bool{}
+							var walk func(b *ssa.BasicBlock)
+							walk = func(b *ssa.BasicBlock) {
+								if seenB[b] || b == hdr {
+									return
+								}
+								seenB[b] = true
+								if exits[b] {
+									leaves = true
+									return
+								}
+								for _, sc := range b.Succs {
+									walk(sc)
+								}
+							}
+							walk(tie)
+							c.judge(!leaves, "R-CMP-CHAIN", fmt.Sprintf("%s:tie of %s #%d goes on", fnName(f), ksym(call), n), ret.Pos(), "after a tie the loop takes the next piece", fmt.Sprintf("when %s is a tie the loop is left instead of going on to the next piece: what follows is compared as plain text, so later numeric runs are ordered lexically", ksym(call)))
+						}
+					}
+				}
 				c.judge(op == token.NEQ && k == 0, "R-CMP-CHAIN", fmt.Sprintf("%s:verdict of %s #%d", fnName(f), ksym(call), n), ret.Pos(), "returned whenever it is not 0", fmt.Sprintf("the verdict of %s is returned only when it is %s %d: the other sign is passed on to the next comparison, which can contradict it (the order is no longer consistent)", ksym(call), op, k))
 			}
 		})
